@@ -128,6 +128,14 @@ PROPS = {
              "thorough": {"checks": 3000, "shards": 16, "timeout": 1800}},
         ],
     },
+    "C18": {
+        "level": "exploration",
+        "jobs": [
+            {"test": "TestC18", "variant": "std", "case_timeout": 200,
+             "quick": {"checks": 16, "shards": 12, "timeout": 500},
+             "thorough": {"checks": 250, "shards": 16, "timeout": 3000}},
+        ],
+    },
     "C19": {
         "level": "exploration",
         "jobs": [
